@@ -326,7 +326,23 @@ class Rejector(Client):
             return None
         pd = self.pick(pds)
         keys = w.meta["pd"][pd]["keys"]
-        kk = r.choice(["overwrite", "new_nonparam", "remove_missing", "get_missing"])
+        kk = r.choice(["overwrite", "new_nonparam", "remove_missing",
+                       "get_missing", "out_of_bounds", "out_of_bounds"])
+        if kk == "out_of_bounds":
+            # a value outside the bounds of the addressed parameter, through
+            # the dictionary
+            for key in sorted(keys):
+                kp = keys[key]
+                if not w.has("p", kp):
+                    continue
+                q = w.pool["p"][kp]
+                if q.max_bound is not None:
+                    return {"op": "pdict_set", "pd": pd, "key": key,
+                            "value": q.max_bound + r.choice([0.5, 1e-6])}
+                if q.min_bound is not None:
+                    return {"op": "pdict_set", "pd": pd, "key": key,
+                            "value": q.min_bound - r.choice([0.5, 1e-6])}
+            return None
         if kk == "overwrite":
             if not keys:
                 return None
